@@ -73,6 +73,20 @@ def build_programs(R):
                 continue
             spec["klass"] = "planted:" + rule
             progs.append({"name": name, "klass": "planted:" + rule, "spec": spec, "src": gen_app.render(spec)})
+    # C07: applications with rich route tables (tools/gen_routes.py, if present)
+    try:
+        import gen_routes
+    except ImportError:
+        gen_routes = None
+    if gen_routes is not None:
+        rrng = random.Random(R.seed * 15485863 + (5 if R.tier == "quick" else 6))
+        for j in range(gen_routes.plan(R.tier)):
+            name = "r%d" % j
+            spec = gen_routes.make(rrng, name)
+            if spec is None:
+                continue
+            spec["klass"] = "routes"
+            progs.append({"name": name, "klass": "routes", "spec": spec, "src": gen_app.render(spec)})
     return progs
 
 
@@ -115,7 +129,25 @@ def get_stage(R, keep_workspace=False):
             tb = time.time()
             rc, out = ws.emit_blueprints()
             if rc != 0:
-                raise RuntimeError("generated app crate does not compile (generator bug): " + out[-3000:])
+                # a module of the user crate does not compile: that is a generator problem, not a property of
+                # pavex — drop the offending modules (recorded in the evidence) and go on with the others
+                import re as _re
+                bad = sorted(set(_re.findall(r"--> app/src/(\w+)\.rs", out)))
+                bad = [b for b in bad if b in {p["name"] for p in batch}]
+                if not bad:
+                    raise RuntimeError("generated app crate does not compile (generator bug): " + out[-3000:])
+                info.setdefault("generator_rejects", []).extend(bad)
+                batch = [p for p in batch if p["name"] not in bad]
+                ws = e2e.Workspace(root, {p["name"]: p["src"] for p in batch}, target_dir=shared_target)
+                ws.home = shared_home
+                ws.write()
+                rc, out = ws.emit_blueprints()
+                if rc != 0:
+                    raise RuntimeError("generated app crate does not compile (generator bug): " + out[-3000:])
+            bp_panics = [l.split()[1] for l in out.split("\n") if l.startswith("BP-PANIC ")]
+            if bp_panics:
+                info.setdefault("blueprint_builder_panics", []).extend(bp_panics)
+                batch = [p for p in batch if p["name"] not in bp_panics]
             t1 = time.time()
             res = ws.pavexc_all([p["name"] for p in batch])
             t2 = time.time()
@@ -163,6 +195,9 @@ def snapshot(paths):
 
 def request_script(spec):
     """Scripted requests for one generated application (C03-C07)."""
+    if spec.get("klass") == "routes":
+        import gen_routes
+        return gen_routes.request_script(spec)
     m = spec["name"]
     reqs = []
     fallible = ["%s.c%d" % (m, c["i"]) for c in spec["ctors"] if c["fallible"]] + \
